@@ -362,6 +362,10 @@ def reindex(m, new, axis, fill=float('nan')):
             v = v.astype(float)
         elif v.dtype.kind == 'b' and fk != 'b':
             v = v.astype(object)
+        elif v.dtype.kind in 'iu' and fk in 'iu' and not (np.iinfo(v.dtype).min <= int(fill) <= np.iinfo(v.dtype).max):
+            v = v.astype(np.int64)          # a same-kind fill value the narrow type cannot hold: the data are widened, nothing wraps
+        elif v.dtype.kind == 'f' and v.dtype.itemsize < 8 and fk == 'f' and fill == fill and float(v.dtype.type(fill)) != float(fill):
+            v = v.astype(float)
     shape = list(v.shape)
     shape[k] = len(new)
     out = np.empty(shape, dtype=v.dtype)
